@@ -303,8 +303,14 @@ def db_words(entries, rnd):
 
 def gen_query(rnd, entries):
     """returns (class, list of argv words)"""
-    c = rnd.choices(["lexical", "fuzzy", "recovery", "recovery-many", "nothing", "rejected", "weird"], [32, 14, 14, 8, 6, 10, 16])[0]
+    c = rnd.choices(["lexical", "fuzzy", "recovery", "recovery-many", "nothing", "rejected", "weird", "subprefix"], [32, 14, 14, 8, 6, 10, 16, 5])[0]
     ws = db_words(entries, rnd)
+    if c == "subprefix":
+        # a query whose first word is the beginning of a sub-command's name ("pipe", "hist", "wiz", "comp"): it is a query like any
+        # other - `wtf hist` searches for "hist", it does not list the history
+        name = rnd.choice([n for n in COMMAND_NAMES if len(n) > 3])
+        pre = name[:rnd.randint(2, len(name) - 1)]
+        return c, rnd.choice([[pre], [pre], [pre, rnd.choice(ws)], [pre + " " + rnd.choice(ws)]])
     if c == "recovery-many":
         # a fragment of the word most commands share: the recovery strategies answer with more entries than a small limit
         cnt = {}
